@@ -31,6 +31,199 @@ TABLE = [
 ]
 
 
+FIXED20 = [b"rXYZ", b"gXYZ", b"bXYZ", b"kXYZ", b"wtpt", b"bkpt", b"lumi"]
+OTHER_NAMES = [b"rTRC", b"gTRC", b"bTRC", b"kTRC", b"cprt", b"chad", b"desc", b"chrm", b"dmnd", b"dmdd", b"XYZ ", b"abcd", b"wtpu", b"lumj"]
+
+
+def rule_tagsize(ctx):
+    """implicit tag size: a function of the tag *name* (ISO/IEC 18181-1: 20 for the seven XYZ-type tags, else the previous size)"""
+    from ..facts import op_local, op_place, op_const_int
+    rid = "R-ICC-TAGSIZE"
+    ctx.rule(rid, "decode_icc, tag list: when the command carries no explicit size, the size is 20 exactly for the tag names rXYZ, gXYZ, bXYZ, "
+                  "kXYZ, wtpt, bkpt, lumi and the previous tag's size otherwise - whichever way the name was coded (shortcut code or raw "
+                  "name). Decided by walking the MIR decision tree from the `no explicit size` edge with the bytes of `tag` fixed to each "
+                  "of 21 candidate names; a decision that depends on anything else than the name forks and is reported")
+    f = ctx.prog.fn(DEC)
+    if f is None:
+        ctx.anchor_missing(rid, DEC)
+        return
+    ctx.seen(f)
+    # identify the locals structurally (names are not relied upon): `tagsize` is assigned the constant 20 in one place and a copy of
+    # another local P elsewhere, where P is in turn assigned from it (the loop-carried previous size); `tag` is the byte slice whose
+    # elements the decision tree switches on
+    tsz = prev = tag = None
+    for b, blk in enumerate(f.blocks):
+        if blk[2]:
+            continue
+        for st in blk[0]:
+            if st[0] == "=" and len(st[1]) == 1 and st[2][0] == "use" and op_const_int(st[2][1]) == 20 and f.local_ty(st[1][0]) == "u32":
+                cand = st[1][0]
+                for blk2 in f.blocks:
+                    for st2 in blk2[0]:
+                        if st2[0] == "=" and st2[1] == [cand] and st2[2][0] == "use" and op_local(st2[2][1]) is not None:
+                            p_ = op_local(st2[2][1])
+                            back = any(st3[0] == "=" and st3[1] == [p_] and st3[2][0] == "use" and
+                                       (op_local(st3[2][1]) == cand or any(st4[0] == "=" and st4[1] == [op_local(st3[2][1])] and st4[2][0] == "use"
+                                                                           and op_local(st4[2][1]) == cand for bl4 in f.blocks for st4 in bl4[0]))
+                                       for bl3 in f.blocks for st3 in bl3[0])
+                            if back:
+                                tsz, prev = cand, p_
+    slices = {}
+    for b, blk in enumerate(f.blocks):
+        t = blk[1]
+        if t[0] == "switch":
+            pl = op_place(t[1])
+            if pl is not None and len(pl) == 3 and pl[1] == "*" and isinstance(pl[2], list) and pl[2][0] == "[c]":
+                slices[pl[0]] = slices.get(pl[0], 0) + 1
+    if tsz is None or prev is None:
+        ctx.anchor_missing(rid, "the implicit tag size decision (a u32 assigned 20 / the previous size) in decode_icc")
+        return
+    c20 = [b for b, blk in enumerate(f.blocks) for st in blk[0] if st[0] == "=" and st[1] == [tsz] and st[2][0] == "use" and op_const_int(st[2][1]) == 20]
+    reach20 = {}
+    for b, blk in enumerate(f.blocks):
+        t = blk[1]
+        if t[0] == "switch":
+            pl = op_place(t[1])
+            if pl is not None and len(pl) == 3 and pl[1] == "*" and isinstance(pl[2], list) and pl[2][0] == "[c]":
+                # does this byte test lead (within a few blocks) to the `20` assignment?
+                frontier, seen_ = [b], set()
+                for _ in range(8):
+                    nxt = []
+                    for x in frontier:
+                        for y in f.succs(x):
+                            if y not in seen_:
+                                seen_.add(y)
+                                nxt.append(y)
+                    frontier = nxt
+                if any(x in seen_ for x in c20):
+                    reach20[pl[0]] = reach20.get(pl[0], 0) + 1
+    if not reach20:
+        ctx.bad(rid, "implicit-size-by-name", "the implicit tag size 20 is no longer decided by examining the tag *name* (no test on the bytes of "
+                "the tag leads to it): a tag spelled with a raw name, or a shortcut code, gets a different size than the format defines", fn=f)
+        return
+    tag = max(reach20, key=reach20.get)
+    # assignments of tagsize
+    kinds = {}
+    for b, blk in enumerate(f.blocks):
+        if blk[2]:
+            continue
+        for st in blk[0]:
+            if st[0] == "=" and st[1] == [tsz]:
+                rv = st[2]
+                if rv[0] == "use" and op_const_int(rv[1]) is not None:
+                    kinds[b] = "const:%d" % op_const_int(rv[1])
+                elif rv[0] == "use" and op_local(rv[1]) == prev:
+                    kinds[b] = "prev"
+                else:
+                    kinds[b] = "explicit"
+    # the `command & 128` decision
+    start = None
+    for b, blk in enumerate(f.blocks):
+        t = blk[1]
+        if t[0] != "switch":
+            continue
+        l = op_local(t[1])
+        for st in blk[0]:
+            if st[0] == "=" and st[1] == [l] and st[2][0] == "bin" and st[2][1] in ("Ne", "Eq"):
+                other = [x for x in blk[0] if x[0] == "=" and x[2][0] == "bin" and x[2][1] == "BitAnd" and op_const_int(x[2][3]) == 128]
+                if other and (op_const_int(st[2][3]) == 0 or op_const_int(st[2][2]) == 0):
+                    zero = [x for v, x in t[2] if v == "0"]
+                    if zero:
+                        # Ne(..,0): '0' edge = flag clear ; Eq(..,0): '0' edge = flag set
+                        start = zero[0] if st[2][1] == "Ne" else t[3]
+    if start is None or not kinds:
+        ctx.anchor_missing(rid, "the explicit-size flag test (command & 128) in decode_icc")
+        return
+
+    def outcomes(name):
+        seen = set()
+        out = set()
+        work = [(start, ())]
+        while work:
+            b, envt = work.pop()
+            if (b, envt) in seen or len(seen) > 4000:
+                continue
+            seen.add((b, envt))
+            if b in kinds:
+                out.add(kinds[b])
+                continue
+            env = dict(envt)
+            blk = f.blocks[b]
+            for st in blk[0]:
+                if st[0] != "=" or len(st[1]) != 1:
+                    continue
+                rv = st[2]
+                val = None
+                if rv[0] == "un" and rv[1] == "PtrMetadata" and op_local(rv[2]) == tag:
+                    val = len(name)
+                elif rv[0] == "use":
+                    val = op_const_int(rv[1])
+                    if val is None:
+                        l = op_local(rv[1])
+                        if l is not None:
+                            val = env.get(l)
+                        else:
+                            p = op_place(rv[1])
+                            val = tag_byte(p, name)
+                elif rv[0] == "bin" and rv[1] in ("Eq", "Ne", "Lt", "Le", "Gt", "Ge"):
+                    x = opval(rv[2], env, name)
+                    y = opval(rv[3], env, name)
+                    if x is not None and y is not None:
+                        val = int({"Eq": x == y, "Ne": x != y, "Lt": x < y, "Le": x <= y, "Gt": x > y, "Ge": x >= y}[rv[1]])
+                if val is None:
+                    env.pop(st[1][0], None)
+                else:
+                    env[st[1][0]] = val
+            t = blk[1]
+            et = tuple(sorted(env.items()))
+            if t[0] == "switch":
+                v = opval(t[1], env, name)
+                if v is not None:
+                    tgt = t[3]
+                    for val, x in t[2]:
+                        if int(val) == v:
+                            tgt = x
+                    work.append((tgt, et))
+                else:
+                    for x in f.succs(b):
+                        work.append((x, et))
+            elif t[0] == "ret":
+                out.add("return")
+            else:
+                for x in f.succs(b):
+                    work.append((x, et))
+        return out
+
+    def tag_byte(p, name):
+        if p is not None and p[0] == tag and len(p) == 3 and p[1] == "*" and isinstance(p[2], list) and p[2][0] == "[c]" and not p[2][3]:
+            i = p[2][1]
+            return name[i] if i < len(name) else None
+        return None
+
+    def opval(o, env, name):
+        k = op_const_int(o)
+        if k is not None:
+            return k
+        l = op_local(o)
+        if l is not None:
+            return env.get(l)
+        return tag_byte(op_place(o), name)
+
+    bad = []
+    for nm in FIXED20 + OTHER_NAMES:
+        got = outcomes(nm)
+        want = {"const:20"} if nm in FIXED20 else {"prev"}
+        if got != want:
+            bad.append((nm.decode(), sorted(got), sorted(want)))
+    if bad:
+        nm, got, want = bad[0]
+        ctx.bad(rid, "implicit-size-by-name", "the implicit size of a tag is not a function of its name as the format defines it: for tag `%s` "
+                "without an explicit size the decoder reaches %s, required %s (%d of %d candidate names differ): the tag table of the "
+                "returned profile is wrong for some valid encodings" % (nm, got, want, len(bad), len(FIXED20 + OTHER_NAMES)), fn=f)
+    else:
+        ctx.ok(rid, "implicit-size-by-name", "21 candidate names: 20 exactly for the seven fixed-size tags, previous size otherwise", nontrivial=True, fn=f)
+
+
 def main(pid, tier, repo=None):
     ctx = Ctx(pid, tier, configs=("workspace",), repo=repo)
     rid = "R-ICC-REJECT"
@@ -66,6 +259,7 @@ def main(pid, tier, repo=None):
                     "inconsistent encoding is accepted or panics later" % (cond, why, len(have), n, near or "none"), fn=f)
     from . import specconst
     specconst.run(ctx, pid)
+    rule_tagsize(ctx)
     # no unwrap/expect/index panic on the error path: decode_icc returns Result and converts slice errors
     ctx.not_decided("byte equality of the decoded profile with the embedded one for every encoding (value-level round trip); the predictor "
                     "arithmetic and the shuffle permutations")
